@@ -259,6 +259,120 @@ def curve_id_range(chk):
     chk.floor('supported_curves shifts in src/ec', n, 6)
 
 
+def self_indexed_wrap(chk):
+    """A context that buffers bytes in a fixed array indexed by one of its own fields (`ctx->buf[ctx->ptr ++] = x`) stays in bounds only
+    by the inductive invariant ptr < sizeof buf: when the incremented index is tested against the array capacity, the taken side of
+    that test must reset the index on *every* path back to the common continuation - a reset that is skipped under some condition (no
+    receiver installed, ...) lets the next byte be written past the array, over the index field itself and beyond.  Path rule over
+    every such store in the library (the PEM decoder's write8 is the instance)."""
+    from .. import wmw
+    R = 'self-indexed-buffer-wraps'
+    P = wmw.program()
+    n = 0
+    for (un, fn), F in sorted(P.static.items()):
+        L = None
+        for i in F.insts.values():
+            if i['op'] != 'store':
+                continue
+            o = F.strip_casts(i['ops'][1])
+            if o['k'] != 'i':
+                continue
+            g = F.insts[o['v']]
+            if g['op'] != 'getelementptr' or len(g.get('var') or []) != 1 or g.get('off') is None:
+                continue
+            base, off0 = F.addr_of(g['ops'][0])
+            if base['k'] != 'a' or off0 is None:
+                continue
+            idx = g['var'][0][0]
+            while idx['k'] == 'i' and F.insts[idx['v']]['op'] in ('zext', 'sext', 'trunc'):
+                idx = F.insts[idx['v']]['ops'][0]
+            if not (idx['k'] == 'i' and F.insts[idx['v']]['op'] == 'load'):
+                continue
+            b2, foff = F.addr_of(F.insts[idx['v']]['ops'][0])
+            if b2 != base or foff is None:
+                continue
+            sn = wmw.ptr_struct(F.f['params'][base['v']]['ty'])
+            if sn is None:
+                # `void *t0ctx` interpreters: the struct type is on the cast in the address chain
+                q = g['ops'][0]
+                for _ in range(8):
+                    if q['k'] != 'i':
+                        break
+                    qi = F.insts[q['v']]
+                    if qi['op'] == 'bitcast' and wmw.ptr_struct(qi['ty']):
+                        sn = wmw.ptr_struct(qi['ty'])
+                        break
+                    if qi['op'] not in ('getelementptr', 'bitcast'):
+                        break
+                    q = qi['ops'][0]
+            if sn is None:
+                continue
+            if L is None:
+                L = irf.Layouts(P.units[un])
+            fa = L.field_at(sn, off0 + g['off'])
+            if fa is None or not fa[3]['count']:
+                continue
+            cap = fa[3]['count']
+            # the increment: store f := idx + 1
+            incs = [q for q in F.insts.values() if q['op'] == 'add' and idx in q['ops'] and any(z['k'] == 'c' and z['v'] == 1 for z in q['ops'])]
+            if not incs:
+                continue
+
+            def is_f(addr):
+                b, o2 = F.addr_of(addr)
+                return b == base and o2 == foff
+            tests = []
+            for c in F.insts.values():
+                if c['op'] != 'icmp' or c['pred'] != 'eq' or c['ops'][1]['k'] != 'c' or c['ops'][1]['v'] != cap:
+                    continue
+                x = c['ops'][0]
+                while x['k'] == 'i' and F.insts[x['v']]['op'] in ('zext', 'sext', 'trunc'):
+                    x = F.insts[x['v']]['ops'][0]
+                if x['k'] != 'i':
+                    continue
+                inc_ids = [q['id'] for q in incs]
+                inc_stores = [z for z in F.insts.values() if z['op'] == 'store' and is_f(z['ops'][1]) and z['ops'][0]['k'] == 'i' and
+                              F.strip_casts(z['ops'][0])['v'] in inc_ids + [u_['id'] for u_ in F.insts.values() if u_['op'] in ('trunc', 'zext', 'sext')
+                                                                            and u_['ops'][0]['k'] == 'i' and u_['ops'][0]['v'] in inc_ids]]
+                reload = F.insts[x['v']]['op'] == 'load' and is_f(F.insts[x['v']]['ops'][0]) and x['v'] != idx['v'] and \
+                    any(F.order[z['id']] < F.order[x['v']] for z in inc_stores)
+                if reload or x['v'] in inc_ids:
+                    tests.append(c)
+            if not tests:
+                continue
+            for c in tests:
+                n += 1
+                inst = '%s: when %s.%s is full (index == %d) the index is reset on every path' % (fn, sn, fa[2], cap)
+                bad = None
+                for b in F.blocks:
+                    t = b['insts'][-1]
+                    if not (t['op'] == 'br' and len(t['ops']) == 3 and t['ops'][0] == {'k': 'i', 'v': c['id']}):
+                        continue
+                    T, E = t['ops'][2]['v'], t['ops'][1]['v']
+                    seen, st = set(), [T]
+                    while st and bad is None:
+                        q = st.pop()
+                        if q in seen:
+                            continue
+                        seen.add(q)
+                        if q == E:
+                            bad = 'the continuation (line %s) is reached from the full-buffer side without a store to the index' % \
+                                next((z.get('line') for z in next(x for x in F.blocks if x['id'] == q)['insts'] if z.get('line')), '?')
+                            break
+                        blk = next(x for x in F.blocks if x['id'] == q)
+                        if any(z['op'] == 'store' and is_f(z['ops'][1]) and z['ops'][0]['k'] == 'c' and 0 <= z['ops'][0]['v'] < cap for z in blk['insts']):
+                            continue
+                        if blk['insts'][-1]['op'] == 'ret':
+                            bad = 'a return is reached from the full-buffer side without a store to the index'
+                            break
+                        st.extend(F.succ[q])
+                if bad:
+                    chk.violation(R, inst, F.where(c), bad + ': the next byte is stored at %s[%d], past the array' % (fa[2], cap), key='%s %s' % (R, fn))
+                else:
+                    chk.ok(R, inst, F.where(c))
+    chk.floor('self-indexed buffers with a wrap test', n, 1)
+
+
 def run(tier):
     chk = report.Check('C05', tier,
                        'Static bounds for the T0 virtual machines that parse all untrusted input (X.509, keys, PEM, both handshakes): '
@@ -295,6 +409,7 @@ def run(tier):
     no_resume_after_fail(chk)
     status_accessors(chk)
     curve_id_range(chk)
+    self_indexed_wrap(chk)
     from .. import bufcopy
     bufcopy.check(chk)
     chk.floor('interpreters', len(t0.INTERPRETERS), 7)
